@@ -129,10 +129,10 @@ Definition holds (w : want) (st : store) (k : key) (xs : list string) : Prop :=
 Definition as_w (w : want) : content -> option (list string) := match w with WList => as_list | WManifest => as_manifest end.
 
 Lemma avro_parse_ok : forall w c xs, avro_parse w c = AvOk xs -> as_w w c = Some xs.
-Proof. intros w c xs H. destruct w, c as [|[|] ?|[|] ?|?| | |]; simpl in H; inversion H; reflexivity. Qed.
+Proof. intros w c xs H. destruct w, c as [|[|] ?|[|] ?|?| | | |? [|]]; simpl in H; inversion H; reflexivity. Qed.
 
 Lemma json_parse_ok : forall w c xs, json_parse w c = Some xs -> as_w w c = Some xs.
-Proof. intros w c xs H. destruct w, c as [|[|] ?|[|] ?|?| | |]; simpl in H; inversion H; reflexivity. Qed.
+Proof. intros w c xs H. destruct w, c as [|[|] ?|[|] ?|?| | | |? [|]]; simpl in H; inversion H; reflexivity. Qed.
 
 Lemma holds_intro : forall w st k ob xs, lookup k st = Some ob -> as_w w (body ob) = Some xs -> holds w st k xs.
 Proof. intros w st k ob xs H1 H2. destruct w; exists ob; auto. Qed.
@@ -330,7 +330,7 @@ Proof. intros a b L H mk ob t H1. apply L in H1. eapply H; eauto. Qed.
 Lemma marker_denotes_relative : forall st mk ob k, markers_wf st -> lookup mk st = Some ob -> is_marker_key mk ->
   marker_denotes mk ob k -> table_relative k.
 Proof.
-  intros st mk ob k W L M D. unfold marker_denotes in D. destruct (body ob) as [| | |[t|]| | |] eqn:B;
+  intros st mk ob k W L M D. unfold marker_denotes in D. destruct (body ob) as [| | |[t|]| | | |? ?] eqn:B;
     try (eapply name_candidates_relative; eauto; fail).
   destruct (nonempty t) eqn:N; [|eapply name_candidates_relative; eauto].
   subst k. eapply name_candidates_relative. eapply W; eauto.
@@ -347,24 +347,24 @@ Proof.
   - pose proof (do_read_store _ _ _ _ _ E) as S. apply do_read_some in E.
     assert (FB: forall k, marker_denotes mk ob k -> In k (marker_fallback (basename mk))).
     { intros k D. rewrite marker_fallback_covers. unfold marker_denotes in D.
-      destruct (body ob) as [| | |[t|]| | |] eqn:B; auto. destruct (nonempty t) eqn:N; auto. subst k. eapply W; eauto. }
+      destruct (body ob) as [| | |[t|]| | | |? ?] eqn:B; auto. destruct (nonempty t) eqn:N; auto. subst k. eapply W; eauto. }
     destruct E as [->|[ob' [L' B']]].
     + inversion H; subst. auto.
     + rewrite L in L'. inversion L'; subst ob'. subst c.
-      destruct (body ob) as [| | |[t|]| | |] eqn:B; try (inversion H; subst; auto; fail).
+      destruct (body ob) as [| | |[t|]| | | |? ?] eqn:B; try (inversion H; subst; auto; fail).
       destruct (nonempty t) eqn:N; inversion H; subst; auto. split; [exact S|].
       intros k D. unfold marker_denotes in D. rewrite B, N in D. subst k. left.
       apply norm_wf_ref. unfold wf_ref. eapply name_candidates_relative. eapply W; eauto.
   - pose proof (do_read_store _ _ _ _ _ E) as S. inversion H; subst. split; [exact S|].
     intros k D. rewrite marker_fallback_covers. unfold marker_denotes in D.
-    destruct (body ob) as [| | |[t|]| | |] eqn:B; auto. destruct (nonempty t) eqn:N; auto. subst k. eapply W; eauto.
+    destruct (body ob) as [| | |[t|]| | | |? ?] eqn:B; auto. destruct (nonempty t) eqn:N; auto. subst k. eapply W; eauto.
 Qed.
 
 Lemma marker_targets_store : forall tp o g nm bn T g', marker_targets tp o g nm bn = (T, g') -> g_store g' = g_store g.
 Proof.
   intros tp o g nm bn T g' H. unfold marker_targets in H.
   destruct (do_read o g nm) as [[c|] g1] eqn:E; apply do_read_store in E.
-  - destruct c as [| | |[t|]| | |]; try (inversion H; subst; exact E). destruct (nonempty t); inversion H; subst; exact E.
+  - destruct c as [| | |[t|]| | | |? ?]; try (inversion H; subst; exact E). destruct (nonempty t); inversion H; subst; exact E.
   - inversion H; subst; exact E.
 Qed.
 
